@@ -69,7 +69,8 @@ def emit_failure(sc, observed, required):
 
 # ----------------------------------------------------------------- validation
 def validate(sc):
-    assert isinstance(sc, dict) and set(sc) == set(STAGES) | {"results"}, "scenario keys"
+    assert isinstance(sc, dict) and set(sc) - {"holder"} == set(STAGES) | {"results"}, "scenario keys"
+    assert sc.get("holder", "inst") in ("inst", "class", "slots", "store"), "holder kind"
     assert sc["results"] and all(f in FLAVOURS for f in sc["results"]), "results"
     for st in STAGES:
         _validate_ops(sc[st], False, False)
@@ -102,8 +103,40 @@ def _validate_ops(ops, in_fx, in_fx_cleanup):
 class Env:
     def __init__(self, sc, limit):
         self.sc, self.limit, self.log, self.n = sc, limit, [], 0
-        self.Holder = type("Holder", (), {"cx": "corig"})
-        self.holder = self.Holder()
+        kind = sc.get("holder", "inst")
+        if kind == "class":       # the patched object is itself a class (its namespace is a mappingproxy)
+            base = type("Base", (), {"cx": "corig"})
+            self.Holder = type("Holder", (base,), {})
+            self.holder = self.Holder
+        elif kind == "slots":     # no instance __dict__
+            self.Holder = type("Holder", (), {"__slots__": ("ex", "nx"), "cx": "corig"})
+            self.holder = self.Holder()
+        elif kind == "store":     # attribute storage outside the instance __dict__
+            class Holder:
+                cx = "corig"
+
+                def __init__(self):
+                    object.__setattr__(self, "_store", {})
+
+                def __getattr__(self, name):
+                    try:
+                        return self._store[name]
+                    except KeyError:
+                        raise AttributeError(name)
+
+                def __setattr__(self, name, value):
+                    self._store[name] = value
+
+                def __delattr__(self, name):
+                    try:
+                        del self._store[name]
+                    except KeyError:
+                        raise AttributeError(name)
+            self.Holder = Holder
+            self.holder = Holder()
+        else:
+            self.Holder = type("Holder", (), {"cx": "corig"})
+            self.holder = self.Holder()
         self.holder.ex = "orig"
         self.case = None
 
@@ -436,6 +469,12 @@ def place_ops(sc, place, ops):
 def gen_patch():
     faults = [(), ("post", "error"), ("test", "fail"), ("down", "kbd"), ("cleanup", "error")]
     places = STAGES + ["cleanup"]
+    # the patched object's attribute storage: class namespace, __slots__, custom __setattr__/__delattr__
+    for kind, attr, place in itertools.product(("class", "slots", "store"), ("ex", "nx"), ("test", "pre")):
+        sc = scenario(pre=[["c", "first", [["k"]]]], test=[["k"]], down=[["c", "late", [["k"]]]])
+        sc["holder"] = kind
+        place_ops(sc, place, [["p", attr], ["c", "seen", [["k"]]]])
+        yield sc
     for place, attr, second, fault in itertools.product(places, ATTRS, range(4), faults):
         sc = scenario(pre=[["c", "first", [["k"]]]], test=[["k"]], down=[["c", "late", [["k"]]]])
         ops = [["p", attr]]
